@@ -160,10 +160,25 @@ def run(chk):
     f = repo.func(NMT, "NmtBase.send_command", "C11.R2")
     ff = ff_for(chk, f, "C11.R2")
     for st in attr_stores(f.node, "_state"):
-        val = ff.norm(st.value)
-        guard = any(p and src(e) == "code in COMMAND_TO_STATE" for e, p in ff.facts_at(st))
-        chk.check(val == "COMMAND_TO_STATE[code]" and guard, "R2", f"{NMT}:NmtBase.send_command | stored state", f.loc(st),
-                  f"stores {val} (guarded={guard}); expected COMMAND_TO_STATE[code] under `code in COMMAND_TO_STATE`")
+        val_e = st.value
+        vname = None
+        if isinstance(val_e, ast.Name) and ff.one_def(val_e.id) is not None:
+            vname, val_e = val_e.id, ff.one_def(val_e.id)
+        val = ff.norm(val_e, subst=False)
+        facts = ff.facts_at(st)
+        guard = any(p and src(e) == "code in COMMAND_TO_STATE" for e, p in facts)
+        if val == "COMMAND_TO_STATE.get(code)" and vname is not None:
+            # the look-up with .get(): "known command" is `<local> is not None`; a truth test would drop the commands whose state is 0
+            present = any((src(e) == f"{vname} is not None" and p) or (src(e) == f"{vname} is None" and not p) for e, p in facts)
+            truthy = any((src(e) == vname and p) or (src(e) == f"not {vname}" and not p) for e, p in facts)
+            if truthy and not present:
+                chk.bad("R2", f"{NMT}:NmtBase.send_command | stored state", f.loc(st),
+                        f"the looked-up state `{vname}` is tested by truth value: state 0 (INITIALISING) is falsy, so Reset Node / Reset Communication leave the local state unchanged")
+            else:
+                chk.check(present, "R2", f"{NMT}:NmtBase.send_command | stored state", f.loc(st), f"stores COMMAND_TO_STATE.get(code) without `{vname} is not None`: undefined commands store None")
+        else:
+            chk.check(val == "COMMAND_TO_STATE[code]" and guard, "R2", f"{NMT}:NmtBase.send_command | stored state", f.loc(st),
+                      f"stores {val} (guarded={guard}); expected COMMAND_TO_STATE[code] under `code in COMMAND_TO_STATE`")
 
     # R3 master frame
     f = repo.func(NMT, "NmtMaster.send_command", "C11.R3")
